@@ -133,7 +133,7 @@ Proof.
     destruct pre as [q|].
     + destruct (ns_get m q) as [ns|] eqn:E; inversion Hx; subst; clear Hx.
       rewrite (unknown_prefix_bound _ _ _ E). destruct (is_doc (p, n)) eqn:Hdoc; cbn; [reflexivity|].
-      destruct n as [i pay kids]; destruct pay; cbn; try reflexivity. rewrite E. reflexivity.
+      destruct n as [i pay kids]; destruct pay; cbn; rewrite ?E; reflexivity.
     + inversion Hx; subst; clear Hx. cbn. destruct (is_doc (p, n)) eqn:Hdoc; cbn; [reflexivity|].
       destruct n as [i pay kids]; destruct pay; cbn; reflexivity.
   - (* AnyNameTest *)
@@ -141,7 +141,7 @@ Proof.
     + destruct q as [|x q]; [discriminate|].
       destruct (ns_get m (x :: q)) as [ns|] eqn:E; inversion Hx; subst; clear Hx.
       rewrite (unknown_prefix_bound _ _ _ E). destruct (is_doc (p, n)) eqn:Hdoc; cbn; [reflexivity|].
-      destruct n as [i pay kids]; destruct pay; cbn; try reflexivity. rewrite E. reflexivity.
+      destruct n as [i pay kids]; destruct pay; cbn; rewrite ?E; reflexivity.
     + inversion Hx; subst; clear Hx. cbn. destruct (is_doc (p, n)) eqn:Hdoc; cbn; [reflexivity|].
       destruct n as [i pay kids]; destruct pay; cbn; reflexivity.
   - (* NodeTypeTest *)
@@ -159,4 +159,288 @@ Proof.
   induction l as [|c l IH]; cbn; intro H; [reflexivity|].
   rewrite (H c (or_introl eq_refl)). cbn. rewrite IH by (intros; apply H; right; assumption). cbn.
   destruct (r_test t' c); reflexivity.
+Qed.
+
+(* ---------------------------------------------------------------- predicate expressions *)
+Definition head_or_empty (l : list str) : str := match l with s :: _ => s | [] => [] end.
+Definition vrel (t : ty) (v : pyval) (rv : rval) : Prop :=
+  match t with
+  | TNum => exists n, v = PInt n /\ rv = RNum n
+  | TStr => exists s, v = PStr s /\ rv = RStr s
+  | TBool => exists b, v = PBool b /\ rv = RBool b
+  | TAttr => exists l, v = PStr (head_or_empty l) /\ rv = RAttrs l /\ (l = [] \/ exists s, l = [s])
+  end.
+
+Definition attr_list (ns l : str) (c : nd) : list str :=
+  if is_tagnode c then match get_attr ns l (tag_attrs c) with Some v => [v] | None => [] end else [].
+Definition res_ns (m : nsmap) (p : option str) : str :=
+  match p with Some q => opt_default [] (ns_get m q) | None => [] end.
+
+Lemma r_attr_bound m c p l : pfx_ok m p = true -> r_attr m c p l = Some (attr_list (res_ns m p) l c).
+Proof.
+  unfold pfx_ok, r_attr, attr_list, res_ns, tag_attrs. destruct p as [q|]; [|reflexivity].
+  destruct (ns_get m q); [reflexivity|discriminate].
+Qed.
+Lemma unknown_prefix_ok m p : pfx_ok m p = true -> unknown_prefix m p = false.
+Proof. unfold pfx_ok, unknown_prefix. destruct p as [q|]; [|reflexivity]. destruct (ns_get m q); [reflexivity|discriminate]. Qed.
+
+Lemma null_str_eqb (s : str) : str_eqb [] s = null s.
+Proof. destruct s; reflexivity. Qed.
+
+(* without class (j) the attribute delb finds is the one with that expanded name *)
+Lemma delb_attr_is_ref m p l c :
+  is_tagnode c = true -> attr_j m p c = false -> pfx_ok m p = true ->
+  delb_attr (ipayload (snd c)) (attr_ns m p) l = get_attr (res_ns m p) l (tag_attrs c).
+Proof.
+  intros Ht Hj Hp. unfold delb_attr, attr_ns, res_ns, tag_attrs, attr_j, pfx_ok in *.
+  destruct p as [q|]; [|reflexivity].
+  destruct (ns_get m q) as [ns|] eqn:E; [|discriminate]. cbn [opt_default].
+  destruct (null ns) eqn:Hn.
+  - destruct ns; [reflexivity|discriminate].
+  - cbn [orb]. destruct (in_scope_default (ipayload (snd c))) as [d|]; [|reflexivity].
+    rewrite Ht in Hj. cbn in Hj. rewrite Hj. reflexivity.
+Qed.
+
+Lemma ty_attr_inv e : ty_of e = Some TAttr -> exists p l, e = AttributeValue p l.
+Proof.
+  destruct e as [[s|n]|p l|p l|o l r|name args]; cbn; try discriminate; eauto.
+  - destruct (ty_of l), (ty_of r); try discriminate.
+    destruct o; repeat match goal with |- (if ?b then _ else _) = _ -> _ => destruct b end; discriminate.
+  - repeat match goal with
+           | |- (if ?b then _ else _) = _ -> _ => destruct b
+           | |- match ?x with _ => _ end = _ -> _ => destruct x
+           end; discriminate.
+Qed.
+
+Lemma vrel_attr_value m p l c :
+  is_tagnode c = true -> attr_j m p c = false -> pfx_ok m p = true ->
+  vrel TAttr (PStr (opt_default [] (delb_attr (ipayload (snd c)) (attr_ns m p) l))) (RAttrs (attr_list (res_ns m p) l c)).
+Proof.
+  intros Ht Hj Hp. rewrite (delb_attr_is_ref m p l c Ht Hj Hp). unfold attr_list. rewrite Ht.
+  destruct (get_attr (res_ns m p) l (tag_attrs c)) as [v|]; cbn.
+  - exists [v]. repeat split. right. eauto.
+  - exists []. repeat split. left. reflexivity.
+Qed.
+
+Lemma truthy_to_bool t v rv : vrel t v rv -> (t = TAttr -> rv <> RAttrs [[]]) -> truthy v = to_bool rv.
+Proof.
+  destruct t; cbn; intros H Hc.
+  - destruct H as (n & -> & ->). reflexivity.
+  - destruct H as (s & -> & ->). reflexivity.
+  - destruct H as (b & -> & ->). reflexivity.
+  - destruct H as (l & -> & -> & [->|[s ->]]); [reflexivity|]. cbn.
+    destruct s; [exfalso; apply (Hc eq_refl); reflexivity|reflexivity].
+Qed.
+
+Lemma stringy_value t v rv : stringy t = true -> vrel t v rv -> exists s, v = PStr s /\ to_str rv = Some s.
+Proof.
+  destruct t; cbn; try discriminate; intros _ H.
+  - destruct H as (s & -> & ->). eauto.
+  - destruct H as (l & -> & -> & _). exists (head_or_empty l). split; [reflexivity|]. destruct l; reflexivity.
+Qed.
+
+Lemma f_lookup_position : f_lookup xpath_functions FN_position = Some {| f_nparams := 0; f_variadic := false; f_body := FCtxPosition |}.
+Proof. reflexivity. Qed.
+Lemma f_lookup_last : f_lookup xpath_functions FN_last = Some {| f_nparams := 0; f_variadic := false; f_body := FCtxSize |}.
+Proof. reflexivity. Qed.
+Lemma f_lookup_not : f_lookup xpath_functions FN_not = Some {| f_nparams := 1; f_variadic := false; f_body := FNot 0 |}.
+Proof. reflexivity. Qed.
+Lemma f_lookup_boolean : f_lookup xpath_functions FN_boolean = Some {| f_nparams := 1; f_variadic := false; f_body := FBool 0 |}.
+Proof. reflexivity. Qed.
+Lemma f_lookup_contains : f_lookup xpath_functions FN_contains = Some {| f_nparams := 2; f_variadic := false; f_body := FIn 1 0 |}.
+Proof. reflexivity. Qed.
+Lemma f_lookup_starts_with : f_lookup xpath_functions FN_starts_with = Some {| f_nparams := 2; f_variadic := false; f_body := FStartsWith 0 1 |}.
+Proof. reflexivity. Qed.
+
+Lemma ty_str_inv e : ty_of e = Some TStr -> exists s, e = AnyValue (VStr s).
+Proof.
+  destruct e as [[s|n]|p l|p l|o l r|name args]; cbn; try discriminate; eauto.
+  - destruct (ty_of l), (ty_of r); try discriminate.
+    destruct o; repeat match goal with |- (if ?b then _ else _) = _ -> _ => destruct b end; discriminate.
+  - repeat match goal with
+           | |- (if ?b then _ else _) = _ -> _ => destruct b
+           | |- match ?x with _ => _ end = _ -> _ => destruct x
+           end; discriminate.
+Qed.
+
+Lemma attr_value_eval m p a c pos size :
+  hazard m (AttributeValue p a) c = false -> bound m (AttributeValue p a) = true ->
+  is_tagnode c = true /\
+  d_expr m (AttributeValue p a) c pos size = Ok (PStr (head_or_empty (attr_list (res_ns m p) a c))) /\
+  r_expr m (AttributeValue p a) c pos size = Some (RAttrs (attr_list (res_ns m p) a c)).
+Proof.
+  cbn [hazard bound d_expr r_expr]. intros Hh Hb. apply orb_false_elim in Hh as [Ht Hj].
+  apply negb_false_iff in Ht. split; [exact Ht|].
+  rewrite (unknown_prefix_ok _ _ Hb), Ht, (r_attr_bound _ _ _ _ Hb). split; [|reflexivity].
+  rewrite (delb_attr_is_ref m p a c Ht Hj Hb). unfold attr_list. rewrite Ht.
+  destruct (get_attr (res_ns m p) a (tag_attrs c)); reflexivity.
+Qed.
+
+Lemma attr_list_cases m p a c : is_tagnode c = true ->
+  (attr_list (res_ns m p) a c = [] /\ attr_missing m p a c = true /\ attr_empty m p a c = false) \/
+  (exists v, attr_list (res_ns m p) a c = [v] /\ attr_missing m p a c = false /\ attr_empty m p a c = null v).
+Proof.
+  intro Ht. unfold attr_list, attr_missing, attr_empty, res_ns. rewrite Ht.
+  destruct (get_attr _ a (tag_attrs c)) as [v|]; [right; exists v; auto|left; auto].
+Qed.
+
+Lemma orb_false_r' b : b || false = b. Proof. destruct b; reflexivity. Qed.
+
+Ltac inv_ex :=
+  repeat match goal with
+         | H : exists _, _ |- _ => destruct H
+         | H : _ /\ _ |- _ => destruct H
+         end.
+
+Lemma str_eqb_sym_nil (s : str) : str_eqb s [] = null s.
+Proof. destruct s; reflexivity. Qed.
+
+Lemma d_expr_binop m o l r c pos size :
+  d_expr m (BooleanOperator o l r) c pos size =
+  bind (d_expr m l c pos size) (fun a => bind (d_expr m r c pos size) (fun b => py_binop o a b)).
+Proof. reflexivity. Qed.
+
+Lemma eq_stringy m o l r a b c pos size :
+  (o = OpEq \/ o = OpNe) -> ty_of l = Some a -> ty_of r = Some b -> stringy a = true -> stringy b = true ->
+  hazard m l c = false -> hazard m r c = false -> eq_hazard m o l r c = false ->
+  bound m l = true -> bound m r = true ->
+  exists bb, d_expr m (BooleanOperator o l r) c pos size = Ok (PBool bb) /\
+             r_expr m (BooleanOperator o l r) c pos size = Some (RBool bb).
+Proof.
+  intros Ho Ha Hb Sa Sb Hhl Hhr He Hbl Hbr.
+  destruct a; try discriminate Sa; destruct b; try discriminate Sb.
+  - apply ty_str_inv in Ha as (s1 & ->). apply ty_str_inv in Hb as (s2 & ->).
+    destruct Ho as [-> | ->]; cbn; rewrite ?orb_false_r'; eauto.
+  - apply ty_str_inv in Ha as (s1 & ->). apply ty_attr_inv in Hb as (q & k & ->).
+    destruct (attr_value_eval m q k c pos size Hhr Hbr) as (Ht & Hd & Hr).
+    assert (G : forall o', r_expr m (BooleanOperator o' (AnyValue (VStr s1)) (AttributeValue q k)) c pos size =
+                           match o' with OpAnd | OpOr => r_expr m (BooleanOperator o' (AnyValue (VStr s1)) (AttributeValue q k)) c pos size
+                           | _ => option_map RBool (r_compare o' (RStr s1) (RAttrs (attr_list (res_ns m q) k c))) end).
+    { intro o'. destruct o'; try reflexivity; cbn [r_expr] in *; rewrite Hr; reflexivity. }
+    rewrite d_expr_binop, Hd. cbn [bind d_expr].
+    destruct (attr_list_cases m q k c Ht) as [(E & Hm & _) | (v & E & Hm & _)];
+      destruct Ho as [-> | ->]; rewrite G, E; cbn in He; rewrite Hm in He; cbn in He |- *.
+    + rewrite str_eqb_sym_nil. destruct (null s1); [discriminate He|eauto].
+    + rewrite str_eqb_sym_nil. destruct (null s1); [eauto|discriminate He].
+    + rewrite ?orb_false_r'. eauto.
+    + rewrite ?orb_false_r'. eauto.
+  - apply ty_attr_inv in Ha as (q & k & ->). apply ty_str_inv in Hb as (s2 & ->).
+    destruct (attr_value_eval m q k c pos size Hhl Hbl) as (Ht & Hd & Hr).
+    assert (G : forall o', r_expr m (BooleanOperator o' (AttributeValue q k) (AnyValue (VStr s2))) c pos size =
+                           match o' with OpAnd | OpOr => r_expr m (BooleanOperator o' (AttributeValue q k) (AnyValue (VStr s2))) c pos size
+                           | _ => option_map RBool (r_compare o' (RAttrs (attr_list (res_ns m q) k c)) (RStr s2)) end).
+    { intro o'. destruct o'; try reflexivity; cbn [r_expr] in *; rewrite Hr; reflexivity. }
+    rewrite d_expr_binop, Hd. cbn [bind d_expr].
+    destruct (attr_list_cases m q k c Ht) as [(E & Hm & _) | (v & E & Hm & _)];
+      destruct Ho as [-> | ->]; rewrite G, E; cbn in He; rewrite Hm in He; cbn in He |- *.
+    + destruct s2; cbn in He |- *; try discriminate He; eauto.
+    + destruct s2; cbn in He |- *; try discriminate He; eauto.
+    + rewrite ?orb_false_r'. eauto.
+    + rewrite ?orb_false_r'. eauto.
+  - apply ty_attr_inv in Ha as (q1 & k1 & ->). apply ty_attr_inv in Hb as (q2 & k2 & ->).
+    destruct (attr_value_eval m q1 k1 c pos size Hhl Hbl) as (Ht & Hd1 & Hr1).
+    destruct (attr_value_eval m q2 k2 c pos size Hhr Hbr) as (_ & Hd2 & Hr2).
+    assert (G : forall o', r_expr m (BooleanOperator o' (AttributeValue q1 k1) (AttributeValue q2 k2)) c pos size =
+                           match o' with OpAnd | OpOr => r_expr m (BooleanOperator o' (AttributeValue q1 k1) (AttributeValue q2 k2)) c pos size
+                           | _ => option_map RBool (r_compare o' (RAttrs (attr_list (res_ns m q1) k1 c)) (RAttrs (attr_list (res_ns m q2) k2 c))) end).
+    { intro o'. destruct o'; try reflexivity; cbn [r_expr] in *; rewrite Hr1, Hr2; reflexivity. }
+    rewrite d_expr_binop, Hd1, Hd2. cbn [bind].
+    assert (He' : attr_missing m q1 k1 c || attr_missing m q2 k2 c = false) by (destruct Ho as [-> | ->]; exact He).
+    apply orb_false_elim in He' as [M1 M2].
+    destruct (attr_list_cases m q1 k1 c Ht) as [(E1 & Hm1 & _) | (v1 & E1 & _)]; [congruence|].
+    destruct (attr_list_cases m q2 k2 c Ht) as [(E2 & Hm2 & _) | (v2 & E2 & _)]; [congruence|].
+    destruct Ho as [-> | ->]; rewrite G, E1, E2; cbn; rewrite ?orb_false_r'; eauto.
+Qed.
+
+Lemma str_is_eq a b : str_is a b = true -> a = b.
+Proof. apply str_eqb_eq. Qed.
+
+Lemma expr_agrees m e :
+  forall t c pos size, ty_of e = Some t -> hazard m e c = false -> bound m e = true ->
+  exists v rv, d_expr m e c pos size = Ok v /\ r_expr m e c pos size = Some rv /\ vrel t v rv.
+Proof.
+  induction e as [[s|n]|p l|p l|o l r IHl IHr|name args IH] using expr_ind'; intros t c pos size Hty Hh Hb.
+  - cbn in Hty; inversion Hty; subst. exists (PStr s), (RStr s). cbn. eauto.
+  - cbn in Hty; inversion Hty; subst. exists (PInt n), (RNum n). cbn. eauto.
+  - cbn in Hty; inversion Hty; subst.
+    destruct (attr_value_eval m p l c pos size Hh Hb) as (Ht & Hd & Hr).
+    eexists _, _. split; [exact Hd|]. split; [exact Hr|]. cbn.
+    exists (attr_list (res_ns m p) l c). repeat split.
+    unfold attr_list. rewrite Ht. destruct (get_attr _ l (tag_attrs c)); eauto.
+  - (* HasAttribute *)
+    cbn in Hty; inversion Hty; subst. cbn [hazard bound] in Hh, Hb. cbn [d_expr r_expr].
+    rewrite (unknown_prefix_ok _ _ Hb), (r_attr_bound _ _ _ _ Hb). unfold attr_list.
+    destruct (is_tagnode c) eqn:Ht.
+    + rewrite (delb_attr_is_ref m p l c Ht Hh Hb).
+      destruct (get_attr (res_ns m p) l (tag_attrs c)); eexists _, _; cbn; eauto.
+    + eexists _, _; cbn; eauto.
+  - (* BooleanOperator *)
+    cbn [ty_of] in Hty. destruct (ty_of l) as [a|] eqn:Ha; [|discriminate]. destruct (ty_of r) as [b|] eqn:Hbt; [|discriminate].
+    cbn [hazard] in Hh. apply orb_false_elim in Hh as [Hh He]. apply orb_false_elim in Hh as [Hhl Hhr].
+    cbn [bound] in Hb. apply andb_prop in Hb as [Hbl Hbr].
+    destruct (stringy a && stringy b && (binop_eqb o OpEq || binop_eqb o OpNe)) eqn:Hs.
+    { apply andb_prop in Hs as [Hs Ho]. apply andb_prop in Hs as [Sa Sb].
+      assert (Ho' : o = OpEq \/ o = OpNe) by (destruct o; cbn in Ho; try discriminate; auto).
+      assert (t = TBool).
+      { destruct Ho' as [-> | ->]; cbn in Hty; destruct a, b; cbn in *; try discriminate; congruence. }
+      subst t.
+      assert (He' : eq_hazard m o l r c = false) by (destruct Ho' as [-> | ->]; exact He).
+      destruct (eq_stringy m o l r a b c pos size Ho' Ha Hbt Sa Sb Hhl Hhr He' Hbl Hbr) as (bb & Hd & Hr).
+      exists (PBool bb), (RBool bb). cbn [vrel]. eauto. }
+    destruct (IHl a c pos size eq_refl Hhl Hbl) as (vl & rl & Hdl & Hrl & Hvl).
+    destruct (IHr b c pos size eq_refl Hhr Hbr) as (vr & rr & Hdr & Hrr & Hvr).
+    rewrite d_expr_binop, Hdl, Hdr. cbn [bind].
+    destruct o; destruct a, b; cbn in Hty, Hs; try discriminate; inversion Hty; subst; clear Hty;
+      cbn [r_expr]; rewrite Hrl, Hrr; cbn in Hvl, Hvr; inv_ex; subst; cbn;
+      eexists _, _; (split; [reflexivity|]); (split; [reflexivity|]); cbn;
+      eexists; (split; [reflexivity|]); f_equal;
+      try solve [ reflexivity | apply N.leb_antisym | symmetry; apply N.leb_antisym
+                | rewrite N.leb_antisym; reflexivity
+                | match goal with |- context [if ?x then _ else _] => destruct x end;
+                  match goal with |- context [if ?x then _ else _] => destruct x end; reflexivity ].
+  - (* Function *)
+    cbn [ty_of] in Hty. cbn [hazard] in Hh. apply orb_false_elim in Hh as [Hha Hhc]. cbn [bound] in Hb.
+    destruct (str_is name FN_position || str_is name FN_last) eqn:E1.
+    { destruct args as [|x args]; [|cbn in Hty; destruct (ty_of x); discriminate].
+      inversion Hty; subst. apply orb_prop in E1 as [E|E]; apply str_is_eq in E; subst name.
+      - exists (PInt pos), (RNum pos). cbn. eauto.
+      - exists (PInt size), (RNum size). cbn. eauto. }
+    destruct (str_is name FN_not || str_is name FN_boolean) eqn:E2.
+    { destruct args as [|x [|y args]]; try (cbn in Hty; repeat match type of Hty with context [ty_of ?z] => destruct (ty_of z) end; discriminate).
+      destruct (ty_of x) as [tx|] eqn:Hx; [|discriminate]. inversion Hty; subst.
+      inversion IH as [|? ? IHx _]; subst.
+      apply orb_false_elim in Hha as [Hhx _]. apply andb_prop in Hb as [Hbx _].
+      destruct (IHx tx c pos size Hx Hhx Hbx) as (v & rv & Hd & Hr & Hv).
+      assert (Htb : truthy v = to_bool rv).
+      { apply (truthy_to_bool tx); [exact Hv|]. intros ->. apply ty_attr_inv in Hx as (q & k & ->).
+        cbn in Hhc.
+        destruct (attr_value_eval m q k c pos size Hhx Hbx) as (Ht & _ & Hr').
+        rewrite Hr' in Hr. inversion Hr; subst.
+        destruct (attr_list_cases m q k c Ht) as [(E & _) | (w & E & _ & Hem)]; rewrite E; [discriminate|].
+        intro Hc. inversion Hc; subst. rewrite Hhc in Hem. discriminate. }
+      apply orb_prop in E2 as [E|E]; apply str_is_eq in E; subst name.
+      - exists (PBool (negb (truthy v))), (RBool (negb (to_bool rv))).
+        split; [cbn [d_expr]; rewrite Hd; reflexivity|]. split; [cbn [r_expr]; rewrite Hr; reflexivity|].
+        cbn. rewrite Htb. eauto.
+      - exists (PBool (truthy v)), (RBool (to_bool rv)).
+        split; [cbn [d_expr]; rewrite Hd; reflexivity|]. split; [cbn [r_expr]; rewrite Hr; reflexivity|].
+        cbn. rewrite Htb. eauto. }
+    destruct (str_is name FN_contains || str_is name FN_starts_with) eqn:E3; [|discriminate].
+    destruct args as [|x [|y [|z args]]]; try (cbn in Hty; repeat match type of Hty with context [ty_of ?z] => destruct (ty_of z) end; discriminate).
+    destruct (ty_of x) as [tx|] eqn:Hx; [|discriminate]. destruct (ty_of y) as [ty'|] eqn:Hy; [|discriminate].
+    destruct (stringy tx && stringy ty') eqn:Hst; [|discriminate]. inversion Hty; subst.
+    apply andb_prop in Hst as [Sx Sy].
+    inversion IH as [|? ? IHx IH']; subst. inversion IH' as [|? ? IHy _]; subst.
+    apply orb_false_elim in Hha as [Hhx Hha]. apply orb_false_elim in Hha as [Hhy _].
+    apply andb_prop in Hb as [Hbx Hb]. apply andb_prop in Hb as [Hby _].
+    destruct (IHx tx c pos size Hx Hhx Hbx) as (vx & rx & Hdx & Hrx & Hvx).
+    destruct (IHy ty' c pos size Hy Hhy Hby) as (vy & ry & Hdy & Hry & Hvy).
+    destruct (stringy_value _ _ _ Sx Hvx) as (sx & -> & Tx). destruct (stringy_value _ _ _ Sy Hvy) as (sy & -> & Ty).
+    apply orb_prop in E3 as [E|E]; apply str_is_eq in E; subst name.
+    + exists (PBool (py_contains sx sy)), (RBool (py_contains sx sy)).
+      split; [cbn [d_expr]; rewrite Hdx, Hdy; reflexivity|].
+      split; [cbn [r_expr]; rewrite Hrx, Hry; cbn; rewrite Tx, Ty; reflexivity|]. cbn. eauto.
+    + exists (PBool (py_startswith sx sy)), (RBool (py_startswith sx sy)).
+      split; [cbn [d_expr]; rewrite Hdx, Hdy; reflexivity|].
+      split; [cbn [r_expr]; rewrite Hrx, Hry; cbn; rewrite Tx, Ty; reflexivity|]. cbn. eauto.
 Qed.
